@@ -33,6 +33,65 @@ def word_inputs(seed: int, count: int):
     return out
 
 
+def serial_impl(rep, res, args, d):
+    """SerialImpl.tla: transcriptions of to_dict and from_dict / make_scfg.  (conformance) DumpOf(H) equals the dictionary the real writer
+    produced and LoadOf of it equals the re-read graph, dict order included; (design) on the hierarchies the pipeline model builds from every
+    closed CFG, Load . Dump is the identity and a second Dump reproduces the first.  DRIFT / DESIGN lines, never verdicts."""
+    from .. import edits
+    from . import designfam
+
+    out = {"module": "SerialImpl.tla", "states": 0}
+    live = [r for r in res if r["derived"]["ser"]["n"]]
+    for r in live:
+        with open(r["derived"]["ser"]["path"]) as f:
+            cases = json.load(f)
+        names = set()
+        for c in cases:
+            names |= set(c["H"]) | set(c["D"])
+        with open(r["derived"]["ser"]["path"], "w") as f:
+            json.dump({"rank": {n: i for i, n in enumerate(sorted(names))}, "cases": cases}, f, separators=(",", ":"))
+    cfg = "INIT Init\nNEXT Next\nINVARIANT NoDrift\nCHECK_DEADLOCK FALSE\n"
+    results = tlc.run_shards("SerialImpl", cfg, [{"MODE": "trace", "CASES": r["derived"]["ser"]["path"], "RANK": ""} for r in live], jobs=args.jobs, workers=1, timeout=3000, heap="3g")
+    tlc.require_ok(results, "SerialImpl (trace)")
+    kinds = {}
+    n = 0
+    for r, tr in zip(live, results):
+        n += tr.distinct
+        if tr.distinct != r["derived"]["ser"]["n"]:
+            raise tlc.MachineryError("SerialImpl evaluated %d of %d cases" % (tr.distinct, r["derived"]["ser"]["n"]))
+        for v in tr.violations:
+            for k in tlc.parse_state(v["states"][0])["drift"]:
+                kinds[k] = kinds.get(k, 0) + 1
+    for k, c in sorted(kinds.items()):
+        print("DRIFT: serialiser: the transcription and the code disagree (%s) on %d recorded graphs" % (k, c))
+        rep.add_drift({"serialiser": k, "cases": c})
+    out.update({"conformance_cases": n, "conformance_drift": kinds, "states": n})
+    # design level on the pipeline model's own hierarchies
+    ns = [2, 3, 4]
+    rank = edits.rank_table([{"H": {str(i): {"jt": []} for i in range(8)}}], kmax=60)
+    rp = os.path.join(d, "ser-rank.json")
+    with open(rp, "w") as f:
+        json.dump(rank, f)
+    envs, outs = [], []
+    for nn in ns:
+        for k in range(2, designfam.nchoices(nn) + 1):
+            o = os.path.join(d, "ser-model-%d-%02d.json" % (nn, k))
+            envs.append({"N": str(nn), "SHARD": str(k), "RANK": rp, "OUT": o})
+            outs.append(o)
+    md = tlc.run_shards("ModelDump", "INIT Init\nNEXT Next\nCHECK_DEADLOCK FALSE\n", envs, jobs=args.jobs, workers=1, timeout=20000, heap="3g")
+    tlc.require_ok(md, "ModelDump")
+    res2 = tlc.run_shards("SerialImpl", cfg, [{"MODE": "model", "CASES": o, "RANK": rp} for o in outs], jobs=args.jobs, workers=1, timeout=6000, heap="3g")
+    tlc.require_ok(res2, "SerialImpl (model)")
+    fails = sum(len(tr.violations) for tr in res2)
+    ms = sum(tr.distinct for tr in res2)
+    if fails:
+        print("DESIGN: property=C15 Load . Dump is not the identity on %d hierarchies of the pipeline model" % fails)
+        rep.add_drift({"design_level": True, "serialiser_round_trip_failures": fails})
+    out.update({"design_states": ms, "design_failures": fails, "design_scope": "every stage of every closed CFG with <= 4 nodes (Pipeline.tla)"})
+    out["states"] += ms
+    return out
+
+
 def main(argv):
     args = parse_args(PROP, argv)
     rep = Report(PROP, args.tier, args.seed, "model_checking")
@@ -49,7 +108,7 @@ def main(argv):
     d = rb.workdir(PROP)
     try:
         res = rb.record_domain(inputs, d, jobs=args.jobs, shards=args.jobs, stages=True, hook="harness.hooks:roundtrip",
-                               derive={"rt": "harness.hooks:roundtrip_cases"}, drop_cases=True)
+                               derive={"rt": "harness.hooks:roundtrip_cases", "ser": "harness.hooks:serial_cases"}, drop_cases=True)
         live = [r for r in res if r["derived"]["rt"]["n"]]
         results = tlc.run_shards("RoundTrip", CFG, [{"CASES": r["derived"]["rt"]["path"]} for r in live], jobs=args.jobs, workers=1, timeout=3000, heap="3g")
         tlc.require_ok(results, "RoundTrip")
@@ -74,6 +133,10 @@ def main(argv):
                     rep.violation(clause, {"id": s["id"], "stage": rec["stage"], "path": rec["path"]},
                                   detail={"excw": rec["excw"], "excr": rec["excr"], "excw2": rec["excw2"], "excr2": rec["excr2"]},
                                   signature={"clause": clause, "exc": (rec["excw"] or rec["excr"] or rec["excw2"] or rec["excr2"]).split(":")[0], "has_ast": "ast" in kinds})
+        if not args.replay:
+            impl = serial_impl(rep, res, args, d)
+            rep.coverage["serialiser_impl_layer"] = impl
+            states += impl["states"]
     finally:
         tlc.cleanup(d)
     summ = [s for r in res for s in r["summary"]]
